@@ -33,6 +33,23 @@ claims = {
    text="Exact pointwise contracts for Expand with n < 0 (deletion) of Point, Ranged, Ambiguous, Between: survivors are exactly the images, partial flags set exactly when an end residue was cut, an emptied location becomes the site at the cut; rangeWithin/rangeOverlap.",
    note=TB+" Composite locations, Delete/Erase/Slice and GenBankFields.Slice not yet under contract.", design='4/C03'),
 }
+claims.update({
+ 'C06': dict(
+   text="Join reduction: the merge table of LocationList.Push (one leaf pushed onto a one-node list) is proved to preserve the set and order of residues and the outer partial markers, to merge two ranges exactly when they abut (forced, or 3'-partial meeting 5'-partial); Join of exactly two leaf parts is proved from the real loop (unrolled, with unwinding assertion) over that contract. The pinned defect Join(4..6,7) = 4..6 is a recorded known finding.",
+   note=TB+" Join over three or more parts and Order (recursive flattening) are assumed; the print/parse half of the property is not decided by this check.", design='4/C06'),
+ 'C10': dict(
+   text="Inverse laws as ghost lemma functions verified over the callee contracts: Delete(Insert(h,i,g),i,len g) and Delete(Embed(...)) restore the host residues pointwise; Concat(Slice(s,0,c),Slice(s,c,L)) restores the residues; x.Shift(i,n).Expand(i,-n) == x for Point and Ranged at every alignment incl. the spanning case, where the split join is proved to re-merge (Joined.Expand@two + Join@two); x.Expand(i,n).Expand(i,-n) == x for Ranged.",
+   note=TB+" Features of composite shape (joins of 3+ parts, orders, complements) and cut sets with more than one cut are not covered; interface-level Location contracts assume purity only.", design='4/C10'),
+ 'C11': dict(
+   text="Frame obligations ('assigns nothing': every byte/feature/location cell allocated before the call reads the same afterwards, including spare capacity) proved for Insert, Embed, Delete, Erase, Rotate, Reverse, Complement, Transcribe, Concat, WithInfo/WithFeatures/WithBytes/WithTopology, FeatureSlice.Insert/Filter, Props.Clone, replaceBytes, insert, NewOrigin and the leaf location methods, with arguments allowed to share backing arrays and to have cap > len; Slice is proved to write only location part lists; Origin.Bytes writes only its own fields. Five aliasing defects were found and repaired (insert, FeatureSlice.Insert, Delete, Rotate, Concat).",
+   note=TB+" Sequence implementations are seen through assumed pure accessors (Info/Features/Bytes); asComplete and the composite Location methods are assumed to write only fresh part lists; Repair not covered.", design='4/C11'),
+ 'C18': dict(
+   text="Complement and Transcribe proved against an independent IUPAC base-set specification for every byte value (symbolic byte, tables read from the real string literals), same case, non-alphabet bytes unchanged, Complement never produces U and Transcribe writes U for A; replaceBytes exact. BySegment order lemmas.",
+   note=TB+" bytes.IndexByte is an assumed external contract. Match and Search (regexp / suffix array) are not under contract.", design='4/C18'),
+ 'C19': dict(
+   text="FeatureSlice.Filter returns exactly the accepted features, in order, unaltered (ghost index maps: sound, ordered, complete); FeatureSlice.Insert returns the input plus the new feature at one position, sources first, locally ordered w.r.t. the location order (from sort.Search's unconditional guarantee); rangeCompare/rangeWithin/rangeOverlap exact.",
+   note=TB+" Filters are modelled as pure functions; LocationLess is assumed pure/deterministic; selector parsing and the filter constructors are not yet under contract.", design='4/C19'),
+})
 not_app = {
  'C01': "string/grammar round trip through fmt, go-wrap and go-pars closures and global registries: no contract within reach expresses parse(print(x)) = x (DESIGN.md section 7)",
  'C17': "FASTA writer/reader behaviour lives in three external string libraries joined by a closure; nothing in /repo to put a provable contract on (DESIGN.md section 7)",
